@@ -352,11 +352,15 @@ pub fn project(bytes: &[u8], peers: &Peers, salt: &str, ah: &ArgHashes) -> Proj 
                                         }
                                         _ => "?".to_string(),
                                     };
-                                    vals.push(json!({"v":v,"p":et.0,"s":et.1,"f":et.2,"lens":et.3,"prov":prov}));
+                                    let (pk, pc) = match prov.split_once(':') {
+                                        Some((a, b)) => (a.to_string(), b.to_string()),
+                                        None => (prov.clone(), String::new()),
+                                    };
+                                    vals.push(json!({"v":v,"p":et.0,"s":et.1,"f":et.2,"lens":et.3,"prov":pk,"provc":pc}));
                                 }
                                 None => {
                                     dangling.push(format!("canon_element:{}", short(ecs)));
-                                    vals.push(json!({"v":special("!", &short(ecs)),"p":"!","s":"!","f":"!","lens":"!","prov":"!"}));
+                                    vals.push(json!({"v":special("!", &short(ecs)),"p":"!","s":"!","f":"!","lens":"!","prov":"!","provc":""}));
                                 }
                             }
                         }
